@@ -45,27 +45,37 @@ def config_snapshot():
 
 # --------------------------------------------------------------------------- catalogue
 
+P0B = (F(3, 8), F(-5, 8), F(7, 8))     # all coordinates odd multiples of 1/8
+
+
 def catalogue():
     """list of (label, kind, defining coordinate list, builder(coords) -> lib object, hashed exact quantities)."""
     cat = []
-    for fname, (u, v, w) in FRAMES.items():
-        L2 = X.n2(u)
+    for fname, frame in FRAMES.items():
+        L2 = X.n2(frame[0])
         L = int(math.isqrt(L2))
         assert L * L == L2
-        p0 = P0
-        q = {}
+        u, v, w = frame
         uu = tuple(F(c, L) for c in u)
+        vv = tuple(F(c, L) for c in v)
         ww = tuple(F(c, L) for c in w)
-        mom = X.cross(uu, p0)
+        for bi, p0 in enumerate((P0, P0B)):
+            tag = fname + ('' if bi == 0 else '/odd')
+            cat.append((tag, 'Point', list(p0), lambda c: Point(*c), list(p0) + [p0[0] * p0[1], p0[0] * p0[2], p0[1] * p0[2]]))
+            for di, d in enumerate((u, v, w)):
+                dd = tuple(F(c, L) for c in d)
+                mom = X.cross(dd, p0)
+                t2 = '%s/d%d' % (tag, di)
+                q = X.add(p0, d)
+                cat.append((t2, 'Line', list(p0) + [F(c) for c in d], lambda c: Line(Point(*c[:3]), Vector(*c[3:])), list(dd) + list(mom) + [-c for c in dd] + [-c for c in mom]))
+                cat.append((t2, 'HalfLine', list(p0) + [F(c) for c in d], lambda c: HalfLine(Point(*c[:3]), Vector(*c[3:])), list(p0) + list(dd)))
+                cat.append((t2, 'Segment', list(p0) + list(q), lambda c: Segment(Point(*c[:3]), Point(*c[3:])), list(p0) + list(q)))
+                cat.append((t2, 'Plane', list(p0) + [F(c) for c in d], lambda c: Plane(Point(*c[:3]), Vector(*c[3:])),
+                            list(dd) + [X.dot(dd, p0)] + [-c for c in dd] + [-X.dot(dd, p0)]))
+        p0 = P0
+        cat.append((fname, 'Vector', [F(c) for c in u], lambda c: Vector(*c), [F(c) for c in u]))
         pts_sq = [p0, X.add(p0, u), X.add(X.add(p0, u), v), X.add(p0, v)]
         box = [X.add(X.add(X.add(p0, X.scal(i, u)), X.scal(j, v)), X.scal(k, w)) for i in (0, 1) for j in (0, 1) for k in (0, 1)]
-        vv = tuple(F(c, L) for c in v)
-        cat.append((fname, 'Point', list(p0), lambda c: Point(*c), list(p0)))
-        cat.append((fname, 'Vector', [F(c) for c in u], lambda c: Vector(*c), [F(c) for c in u]))
-        cat.append((fname, 'Line', list(p0) + [F(c) for c in u], lambda c: Line(Point(*c[:3]), Vector(*c[3:])), list(uu) + list(mom)))
-        cat.append((fname, 'HalfLine', list(p0) + [F(c) for c in u], lambda c: HalfLine(Point(*c[:3]), Vector(*c[3:])), list(p0) + list(uu)))
-        cat.append((fname, 'Segment', list(p0) + list(X.add(p0, u)), lambda c: Segment(Point(*c[:3]), Point(*c[3:])), list(p0) + list(X.add(p0, u))))
-        cat.append((fname, 'Plane', list(p0) + [F(c) for c in w], lambda c: Plane(Point(*c[:3]), Vector(*c[3:])), list(ww) + [X.dot(ww, p0)]))
         cat.append((fname, 'ConvexPolygon', [c for p in pts_sq for c in p],
                     lambda c: ConvexPolygon(tuple(Point(*c[3 * i:3 * i + 3]) for i in range(4))),
                     [c for p in pts_sq for c in p] + list(ww) + [X.dot(ww, p0)]))
@@ -120,6 +130,8 @@ def def_points(o):
 
 
 def perturb_indices(kind, n, full):
+    if kind in ('Line', 'HalfLine', 'Segment', 'Plane') and not full:
+        return [0, 2, 3, 4]
     if kind == 'ConvexPolyhedron':
         return [0, 1, 2, 21, 22, 23] if full else [0, 22]
     if kind == 'ConvexPolygon' and not full:
@@ -140,13 +152,13 @@ def battery(full):
         base_c = [float(c) for c in coords]
         a = lib.construct(kind, lambda: mk(base_c))
         for idx in perturb_indices(kind, len(coords), full):
-            for div in ((1000, 100) if full else (1000,)):
+            for div in ((1000, -1000, 100, -100) if full else (1000, -1000)):
                 c2 = list(base_c)
                 d = eps / div
                 c2[idx] = base_c[idx] + d
-                if not (0 < abs(c2[idx] - base_c[idx]) <= d * 1.0000001):
+                if not (0 < abs(c2[idx] - base_c[idx]) <= abs(d) * 1.0000001):
                     c2[idx] = base_c[idx] + d * 0.75
-                    if not (0 < abs(c2[idx] - base_c[idx]) <= d):
+                    if not (0 < abs(c2[idx] - base_c[idx]) <= abs(d)):
                         res.append(None)
                         continue
                 lab = '%s/%s/c%d/eps/%d' % (fname, kind, idx, div)
@@ -179,9 +191,11 @@ def battery(full):
                             chk('intersection-equals-operand', lambda: r == a)
                 res.append(ok)
         if kind in ('Point', 'Vector'):
-            for idx in range(3):
+            for idx in (0, 1, 2, 3, 4, 5):
+                sgn = 1 if idx < 3 else -1
+                idx = idx % 3
                 c2 = list(base_c)
-                c2[idx] = base_c[idx] + 4 * eps
+                c2[idx] = base_c[idx] + sgn * 4 * eps
                 lab = '%s/%s/c%d/4eps' % (fname, kind, idx)
                 b = mk(c2)
                 r = lib.call(lambda: a == b)
@@ -191,6 +205,59 @@ def battery(full):
                     res.append(False)
                 else:
                     res.append(True)
+    return res, fails
+
+
+def make_persistent():
+    """objects created, compared and hashed under the default configuration and kept alive
+    across later configuration changes: {target eps: [(label, kind, a, a')]} with a' = a
+    perturbed by (target eps)/1000 in one defining coordinate."""
+    out = {}
+    simple = []
+    for fname, kind, coords, mk, admitted in get_cat():
+        if admitted and kind in ('Point', 'Line', 'Plane', 'Segment', 'HalfLine') and fname in ('axis', 'pyth3', 'pyth3/odd', 'pyth3/odd/d1', 'axis/d2', 'pyth7/d0', 'axis/d0', 'pyth3/d0'):
+            simple.append((fname, kind, [float(c) for c in coords], mk, 1))
+    # simplicial bodies stay constructible under every tolerance when one vertex is perturbed
+    for fname in ('axis', 'pyth3'):
+        u, v, w = FRAMES[fname]
+        tri = [P0, X.add(P0, u), X.add(P0, v)]
+        tet = tri + [X.add(P0, w)]
+        simple.append((fname, 'ConvexPolygon', [float(c) for p in tri for c in p],
+                       lambda c: ConvexPolygon(tuple(Point(*c[3 * i:3 * i + 3]) for i in range(3))), 4))
+
+        def mktet(c):
+            P = [Point(*c[3 * i:3 * i + 3]) for i in range(4)]
+            return ConvexPolyhedron(tuple(ConvexPolygon((P[i], P[j], P[k])) for i, j, k in ((0, 1, 2), (0, 1, 3), (0, 2, 3), (1, 2, 3))))
+        simple.append((fname, 'ConvexPolyhedron', [float(c) for p in tet for c in p], mktet, 10))
+    for e in EPS:
+        lst = []
+        for fname, kind, base_c, mk, idx in simple:
+            c2 = list(base_c)
+            c2[idx] = base_c[idx] - e / 1000
+            a, b = mk(base_c), mk(c2)
+            # use them now (primes whatever a refactoring may cache)
+            lib.call(hash, a)
+            lib.call(hash, b)
+            lib.call(lambda: a == b)
+            lib.call(repr, a)
+            lst.append(('%s/%s' % (fname, kind), kind, a, b))
+        out[e] = lst
+    return out
+
+
+def check_persistent(persist, eps):
+    res, fails = [], []
+    for e, lst in sorted(persist.items()):
+        if e > eps * 1.0000001:
+            continue
+        for lab, kind, a, b in lst:
+            ok = True
+            for name, th in (('eq', lambda: a == b), ('eq-swapped', lambda: b == a), ('hash-equal', lambda: hash(a) == hash(b))):
+                r = lib.call(th)
+                if r is not True:
+                    ok = False
+                    fails.append(('persistent/%s/made-for-eps-%g' % (lab, e), kind, 'object-created-before-the-setting-change:' + name))
+            res.append(ok)
     return res, fails
 
 
@@ -218,12 +285,13 @@ class ConfigMachine(e2.Machine):
 
     def build(self, hist):
         set_eps()
+        persist = make_persistent()
         for k, v in hist:
             if k == 'eps':
                 set_eps() if v is None else set_eps(v)
             else:
                 set_sig_figures() if v is None else set_sig_figures(v)
-        return {'cfg': config_snapshot()}
+        return {'cfg': config_snapshot(), 'persist': persist}
 
     def key(self, st, hist):
         # no merging: every history to the bound is executed (full unrolling); the
@@ -242,6 +310,9 @@ class ConfigMachine(e2.Machine):
                 viols.append(Viol('C19|config|setter-result', sc, [meps, msig], [eps, sig], 'configuration after the history'))
             full = len(hist) <= self.full_depth
             res, fails = battery(full)
+            pres, pfails = check_persistent(st.get('persist') or {}, eps)
+            res = res + pres
+            fails = fails + pfails
             st['digest'] = hashlib.sha1(repr((full, res)).encode()).hexdigest()
             seen = set()
             for lab, kind, sym in fails:
